@@ -107,8 +107,14 @@ class Pending:
         self.lines, self.fn = lines, fn
 
 
-def block_err(got, want, sl, scale):
-    return max((abs(g - w) for g, w in zip(got[sl], want[sl])), default=0.0) / max(scale, 1e-300)
+# Below these magnitudes intermediate products of the float code underflow (gradually or to zero), so "relative to the
+# block's scale" is no longer meaningful in IEEE arithmetic: blocks are compared with this scale floor (absolute tolerance
+# k·eps·floor ≈ 1e3·tiny).  This is a statement about the dtype's range, not a loosening of the property.
+SCALE_FLOOR = {"float32": 16 * 1.1754944e-38 / 2.0 ** -23, "float64": 16 * 2.2250738585072014e-308 / 2.0 ** -52}
+
+
+def block_err(got, want, sl, scale, floor):
+    return max((abs(g - w) for g, w in zip(got[sl], want[sl])), default=0.0) / max(scale, floor)
 
 
 def best(cands, errfn):
@@ -291,13 +297,15 @@ def adj_errfn(name, dtype, x, a, transposed, got):
             sc_tau = (s * n2(tau) + tn * (nphi + abs(sg))) if not transposed else (n2(tau) + tn * (nphi + abs(sg))) / s
         sc_tau *= 3
 
+    fl = SCALE_FLOOR[dtype]
+
     def fn(want):
-        out = {"phi": (block_err(got, want, U.PHISL[name], 3 * nphi), tol)}
+        out = {"phi": (block_err(got, want, U.PHISL[name], 3 * nphi, fl), tol)}
         if sc_tau is not None:
-            out["tau"] = (block_err(got, want, U.TAUSL[name], sc_tau), tol)
+            out["tau"] = (block_err(got, want, U.TAUSL[name], sc_tau, fl), tol)
         if sg is not None:
             i = U.SIGIDX[name]
-            out["sigma"] = (abs(got[i] - want[i]) / max(abs(sg), 1e-300), 4 * e)
+            out["sigma"] = (abs(got[i] - want[i]) / max(abs(sg), fl), 4 * e)
         return out
     return fn
 
@@ -312,7 +320,7 @@ def retr_errfn(name, dtype, x, a, got):
         wn = wnorm(name, sg)
         es = math.exp(sg) if sg is not None else 1.0
         # Exp's translation block: 4·sqrt(eps) allowance relative to its own scale; the product: algebraic
-        tsc = (4 * math.sqrt(e) * wn * n2(tau) + K_ALG * e * (es * n2(t) * 3 + wn * n2(tau))) + 1e-300
+        tsc = (4 * math.sqrt(e) * wn * n2(tau) + K_ALG * e * (es * n2(t) * 3 + wn * n2(tau))) + K_ALG * e * SCALE_FLOOR[dtype]
 
     def fn(want):
         out = {"q": (math.sqrt(sum((g - w) ** 2 for g, w in zip(got[U.QSL[name]], want[U.QSL[name]]))), tq)}
@@ -349,14 +357,15 @@ def jinvp_scales(name, dtype, xi, p):
 
 def jinvp_errfn(name, dtype, xi, p, got):
     sc = jinvp_scales(name, dtype, xi, p)
+    fl = SCALE_FLOOR[dtype]
 
     def fn(want):
-        out = {"phi": (block_err(got, want, U.PHISL[name], sc["phi"][0]), sc["phi"][1])}
+        out = {"phi": (block_err(got, want, U.PHISL[name], sc["phi"][0], fl), sc["phi"][1])}
         if "tau" in sc:
-            out["tau"] = (block_err(got, want, U.TAUSL[name], sc["tau"][0]), sc["tau"][1])
+            out["tau"] = (block_err(got, want, U.TAUSL[name], sc["tau"][0], fl), sc["tau"][1])
         if "sigma" in sc:
             i = U.SIGIDX[name]
-            out["sigma"] = (abs(got[i] - want[i]) / max(sc["sigma"][0], 1e-300), sc["sigma"][1])
+            out["sigma"] = (abs(got[i] - want[i]) / max(sc["sigma"][0], fl), sc["sigma"][1])
         return out
     return fn
 
@@ -474,7 +483,7 @@ def prepare(ctx: Ctx, case) -> list:
             for i in range(xe.shape[0]):
                 xi_, ai_ = xe[i].tolist(), ae[i].tolist()
                 got = Zf[i].tolist()
-                sc = max(U.max_abs(xi_), abs(alpha) * U.max_abs(ai_), 1e-300)
+                sc = max(U.max_abs(xi_), abs(alpha) * U.max_abs(ai_), SCALE_FLOOR[dtype])
 
                 def chk(cands, got=got, sc=sc, i=i):
                     r, errs = best(cands, lambda w: {"v": (max(abs(g - v) for g, v in zip(got, w)) / sc, 4 * eps)})
@@ -615,22 +624,30 @@ def tdist_blocks(name, A_, B_):
 
 
 def law_case(ctx: Ctx, case) -> bool:
-    """Adj / AdjT / Retr-add identities on the real code for one (X, a) pair (single items, no batch)"""
+    """Adj / AdjT / Retr-add identities on the real code for one (X, a) pair of batched operands (shapes broadcastable)"""
     P = U.pp()
     name, dtype = case["type"], case["dtype"]
     D, e = U.dt(dtype), teps(dtype)
+    G, A = U.GDIM[name], U.ADIM[name]
     algT = getattr(P, U.ALG[name] + "_type")
-    X = U.lt(name, case["X"], D)
-    a = P.LieTensor(torch.tensor(case["a"], dtype=torch.float64).to(D), ltype=algT)
-    x, av = X.tensor().double().tolist(), a.tensor().double().tolist()
-    t, q, s = gparts(name, x)
-    tau, phi, sg = aparts(name, av)
+    sa, sb = tuple(case.get("shape_X", [])), tuple(case.get("shape_a", []))
+    so = tuple(torch.broadcast_shapes(sa, sb))
+    X0 = torch.tensor(case["X"], dtype=torch.float64).reshape(sa + (G,)).to(D)
+    X = P.LieTensor(X0.clone(), ltype=U.ltype(name))
+    a = P.LieTensor(torch.tensor(case["a"], dtype=torch.float64).reshape(sb + (A,)).to(D), ltype=algT)
+    if X.numel() == 0 or a.numel() == 0:
+        return True
+    xr, ar = X.tensor().double().reshape(-1, G).tolist(), a.tensor().double().reshape(-1, A).tolist()
     n0 = len(ctx.failures)
-    nphi, ntau, nt = n2(phi), (n2(tau) if tau is not None else 0.0), (n2(t) if t is not None else 0.0)
-    sX = s if s is not None else 1.0
-    es = math.exp(sg) if sg is not None else 1.0
-    asg = abs(sg) if sg is not None else 0.0
-    wn = wnorm(name, sg)
+
+    def mx(rows, sl):
+        return max((n2(r[sl]) for r in rows), default=0.0) if sl is not None else 0.0
+    nphi, ntau, nt = mx(ar, U.PHISL[name]), mx(ar, U.TAUSL[name]), mx(xr, U.TSL[name])
+    sXs = [r[U.SIDX[name]] for r in xr] if U.SIDX[name] is not None else [1.0]
+    sX, sXi = max(sXs), 1.0 / min(sXs)
+    sgs = [r[U.SIGIDX[name]] for r in ar] if U.SIGIDX[name] is not None else [0.0]
+    es, asg = math.exp(max(sgs)), max(abs(v) for v in sgs)
+    wn = wnorm(name, max(sgs))
     tq = K_ALG * e * (1 + nphi)
     tsr = K_ALG * e * (1 + asg)
     try:
@@ -638,57 +655,62 @@ def law_case(ctx: Ctx, case) -> bool:
         lhs, rhs = X @ a.Exp(), X.Adj(a).Exp() @ X
         tsc = nt + sX * wn * ntau + wn * (sX * ntau + nt * (nphi + asg)) + es * nt
         d = tdist_blocks(name, lhs.tensor(), rhs.tensor())
-        lim = {"q": tq, "t": (4 * math.sqrt(e) + K_ALG * e) * tsc + 1e-300, "s": tsr}
+        lim = {"q": tq, "t": (4 * math.sqrt(e) + K_ALG * e) * (tsc + SCALE_FLOOR[dtype]), "s": tsr}
         bad = {k: f"{v:.3e}>{lim[k]:.3e}" for k, v in d.items() if not v <= lim[k]}
         if bad:
-            ctx.fail(case, f"adj-law: X@Exp(a) != Exp(Adj(X,a))@X for {name} ({dtype}): {bad}")
+            ctx.fail(case, f"adj-law: X@Exp(a) != Exp(Adj(X,a))@X for {name} ({dtype}, shapes {sa},{sb}): {bad}")
         # Exp(a) @ X = X @ Exp(AdjT(X, a))
         lhs, rhs = a.Exp() @ X, X @ X.AdjT(a).Exp()
-        tsc = wn * ntau + es * nt + nt + wn * (ntau + nt * (nphi + asg))
+        tsc = wn * ntau + es * nt + nt + sX * sXi * wn * (ntau + nt * (nphi + asg))
         d = tdist_blocks(name, lhs.tensor(), rhs.tensor())
-        lim = {"q": tq, "t": (4 * math.sqrt(e) + K_ALG * e) * tsc + 1e-300, "s": tsr}
+        lim = {"q": tq, "t": (4 * math.sqrt(e) + K_ALG * e) * (tsc + SCALE_FLOOR[dtype]), "s": tsr}
         bad = {k: f"{v:.3e}>{lim[k]:.3e}" for k, v in d.items() if not v <= lim[k]}
         if bad:
-            ctx.fail(case, f"adjT-law: Exp(a)@X != X@Exp(AdjT(X,a)) for {name} ({dtype}): {bad}")
+            ctx.fail(case, f"adjT-law: Exp(a)@X != X@Exp(AdjT(X,a)) for {name} ({dtype}, shapes {sa},{sb}): {bad}")
         # Retr(X,a) = X + a = add = add_ = Exp(a) @ X ; extra components ignored ; alpha
         ref = a.Exp() @ X
-        junk = torch.tensor(case.get("junk", [7.0, -3.0]), dtype=D)
         at = a.tensor()
-        Xc1, Xc2 = X.clone(), X.clone()
+        junk = torch.tensor(case.get("junk", [7.0, -3.0]), dtype=D).expand(sb + (2,))
         forms = {
             "Retr(X,a)": X.Retr(a), "pp.Retr": P.Retr(X, a), "X+a(LieTensor)": X + a, "X+a(Tensor)": X + at,
-            "X.add(a)": X.add(at), "pp.add": P.add(X, at), "X+cat(a,junk)": X + torch.cat([at, junk]),
-            "add_": Xc1.add_(at), "add_(cat(a,junk))": Xc2.add_(torch.cat([at, junk[:1]])),
+            "X.add(a)": X.add(at), "pp.add": P.add(X, at), "X+cat(a,junk)": X + torch.cat([at, junk], -1),
             "add(0.5a,alpha=2)": X.add(0.5 * at, alpha=2), "Exp(a)*X": a.Exp() * X,
         }
-        lim = {"q": 16 * e, "t": 16 * e * (wn * ntau + es * nt) + 1e-300, "s": 16 * e}
+        inplace = so == sa
+        if inplace:
+            Xc1, Xc2 = X.clone(), X.clone()
+            forms["add_"] = Xc1.add_(at)
+            forms["add_(cat(a,junk))"] = Xc2.add_(torch.cat([at, junk[..., :1]], -1))
+        lim = {"q": 16 * e, "t": 16 * e * (wn * ntau + es * nt + SCALE_FLOOR[dtype]), "s": 16 * e}
         for nm, v in forms.items():
-            if not isinstance(v, P.LieTensor) or v.ltype != X.ltype or v.shape != X.shape:
-                ctx.fail(case, f"retr-type: {nm} returned {type(v).__name__} {getattr(v, 'ltype', None)} {tuple(v.shape)} for {name}")
+            if not isinstance(v, P.LieTensor) or v.ltype != X.ltype or tuple(v.shape) != so + (G,) or v.dtype != D:
+                ctx.fail(case, f"retr-type: {nm} returned {type(v).__name__} {getattr(v, 'ltype', None)} {tuple(v.shape)} for {name} "
+                               f"(shapes {sa},{sb})")
                 continue
             d = tdist_blocks(name, v.tensor(), ref.tensor())
             bad = {k: f"{val:.3e}>{lim[k]:.3e}" for k, val in d.items() if not val <= lim[k]}
             if bad:
-                ctx.fail(case, f"retr-law: {nm} != Exp(a)@X for {name} ({dtype}): {bad}")
-        if not torch.equal(Xc1.tensor(), forms["add_"].tensor()) or forms["add_"].data_ptr() != Xc1.data_ptr():
-            ctx.fail(case, f"inplace: add_ does not leave its result in the input ({name})")
-        if not torch.equal(X.tensor().double(), torch.tensor(case["X"], dtype=torch.float64).to(D).double()):
+                ctx.fail(case, f"retr-law: {nm} != Exp(a)@X for {name} ({dtype}, shapes {sa},{sb}): {bad}")
+        if not torch.equal(X.tensor(), X0):
             ctx.fail(case, f"purity: an out-of-place form of + modified X ({name})")
-        # second update on the same object composes: (X + a) + a = Exp(a)@Exp(a)@X
-        Xc1.add_(at)
-        ref2 = a.Exp() @ (a.Exp() @ X)
-        d = tdist_blocks(name, Xc1.tensor(), ref2.tensor())
-        lim2 = {"q": 32 * e, "t": 32 * e * (wn * ntau * (1 + es) + es * es * nt) + 1e-300, "s": 32 * e}
-        bad = {k: f"{val:.3e}>{lim2[k]:.3e}" for k, val in d.items() if not val <= lim2[k]}
-        if bad:
-            ctx.fail(case, f"retr-history: second add_ on the same object != Exp(a)@Exp(a)@X for {name} ({dtype}): {bad}")
+        if inplace:
+            if not torch.equal(Xc1.tensor(), forms["add_"].tensor()) or forms["add_"].data_ptr() != Xc1.data_ptr():
+                ctx.fail(case, f"inplace: add_ does not leave its result in the input ({name})")
+            # second update on the same object composes: (X + a) + a = Exp(a)@Exp(a)@X
+            Xc1.add_(at)
+            ref2 = a.Exp() @ (a.Exp() @ X)
+            d = tdist_blocks(name, Xc1.tensor(), ref2.tensor())
+            lim2 = {"q": 32 * e, "t": 32 * e * (wn * ntau * (1 + es) + es * es * nt + SCALE_FLOOR[dtype]), "s": 32 * e}
+            bad = {k: f"{val:.3e}>{lim2[k]:.3e}" for k, val in d.items() if not val <= lim2[k]}
+            if bad:
+                ctx.fail(case, f"retr-history: second add_ on the same object != Exp(a)@Exp(a)@X for {name} ({dtype}): {bad}")
         # zero tangent vector is neutral
-        z = torch.zeros(U.ADIM[name], dtype=D)
+        z = torch.zeros(A, dtype=D)
         d = tdist_blocks(name, (X + z).tensor(), X.tensor())
         if max(d.values()) > 4 * e * (1 + nt):
             ctx.fail(case, f"retr-zero: X + 0 != X for {name} ({dtype}): {d}")
     except Exception as ex:
-        ctx.fail(case, f"raises: law evaluation on {name} raised {type(ex).__name__}: {str(ex)[:160]}")
+        ctx.fail(case, f"raises: law evaluation on {name} (shapes {sa},{sb}) raised {type(ex).__name__}: {str(ex)[:160]}")
     return len(ctx.failures) == n0
 
 
@@ -698,14 +720,21 @@ def run_laws(ctx: Ctx, n_cases: int):
         name = rng.choice(U.GROUPS)
         dtype = rng.choice(["float64", "float64", "float32"])
         eps = teps(dtype)
-        g, tg = gen_grp_row(rng, name, eps)
-        a, ta = gen_alg_row(rng, name, eps)
-        g = U.to_dtype_exact([g], dtype)[1][0].tolist()
-        a = U.to_dtype_exact([a], dtype)[1][0].tolist()
-        case = {"stream": "laws", "type": name, "dtype": dtype, "X": g, "a": a, "junk": [rng.uniform(-9, 9), rng.uniform(-9, 9)]}
+        sa, sb = ((), ())
+        if rng.random() < 0.4:
+            sa, sb, _ = gen_shapes(rng)
+        na, nb = int(math.prod(sa)), int(math.prod(sb))
+        gs = [gen_grp_row(rng, name, eps) for _ in range(na)]
+        as_ = [gen_alg_row(rng, name, eps) for _ in range(nb)]
+        g = U.to_dtype_exact([r[0] for r in gs], dtype)[1].tolist() if na else []
+        a = U.to_dtype_exact([r[0] for r in as_], dtype)[1].tolist() if nb else []
+        case = {"stream": "laws", "type": name, "dtype": dtype, "shape_X": list(sa), "shape_a": list(sb), "X": g, "a": a,
+                "junk": [rng.uniform(-9, 9), rng.uniform(-9, 9)]}
         law_case(ctx, case)
-        ctx.note_case(("laws", name, dtype, tg, ta), not (tg == "identity" and ta == "zero"))
+        tg = tuple(sorted({r[1] for r in gs}))[:2] + tuple(sorted({r[1] for r in as_}))[:2]
+        ctx.note_case(("laws", name, dtype, tg, sa, sb), not all(t in ("identity", "zero") for t in tg))
         ctx.count(f"laws.{name}.{dtype}")
+        ctx.count("laws.batched" if (sa or sb) else "laws.single")
     ctx.sample({"stream": "laws", "example": case}, cap=12)
 
 
@@ -762,8 +791,9 @@ def mp_norm_inf(Ad):
     return max(sum(abs(Ad[i, j]) for j in range(Ad.cols)) for i in range(Ad.rows))
 
 
-def jinvp_oracle_case(ctx: Ctx, case) -> bool:
-    """Jinvp(X,p) vs exact JlInv(Log X)·p (mpmath) and vs the finite difference of Log(Exp(h p)@X)"""
+def jinvp_oracle_case(ctx: Ctx, case, got=None) -> bool:
+    """Jinvp(X,p) vs exact JlInv(Log X)·p (mpmath) and vs the finite difference of Log(Exp(h p)@X).
+    `got`: the item's value taken from a batched call (search after a correspondence break), else computed here."""
     P = U.pp()
     mp = mp_mod()
     name, dtype = case["type"], case["dtype"]
@@ -773,7 +803,7 @@ def jinvp_oracle_case(ctx: Ctx, case) -> bool:
     p = P.LieTensor(torch.tensor(case["p"], dtype=torch.float64).to(D), ltype=algT)
     n0 = len(ctx.failures)
     try:
-        got = X.Jinvp(p).tensor().double().tolist()
+        got = X.Jinvp(p).tensor().double().tolist() if got is None else got
         xi = X.Log().tensor().double().tolist()
         pv = p.tensor().double().tolist()
         Ad = mp_ad(mp, name, xi)
@@ -786,12 +816,13 @@ def jinvp_oracle_case(ctx: Ctx, case) -> bool:
             if na >= 0.9 * 2 * math.pi:
                 return True
             trunc = 2 * na ** 6 / 30240 / (1 - (na / (2 * math.pi)) ** 2) * max(abs(v) for v in pv) * 3
-        errs = {"phi": (block_err(got, ref, U.PHISL[name], sc["phi"][0]), sc["phi"][1] + (trunc / max(sc["phi"][0], 1e-300)))}
+        fl = SCALE_FLOOR[dtype]
+        errs = {"phi": (block_err(got, ref, U.PHISL[name], sc["phi"][0], fl), sc["phi"][1] + (trunc / max(sc["phi"][0], fl)))}
         if "tau" in sc:
-            errs["tau"] = (block_err(got, ref, U.TAUSL[name], sc["tau"][0]), sc["tau"][1] + trunc / max(sc["tau"][0], 1e-300))
+            errs["tau"] = (block_err(got, ref, U.TAUSL[name], sc["tau"][0], fl), sc["tau"][1] + trunc / max(sc["tau"][0], fl))
         if "sigma" in sc:
             i = U.SIGIDX[name]
-            errs["sigma"] = (abs(got[i] - ref[i]) / max(sc["sigma"][0], 1e-300), sc["sigma"][1] + trunc / max(sc["sigma"][0], 1e-300))
+            errs["sigma"] = (abs(got[i] - ref[i]) / max(sc["sigma"][0], fl), sc["sigma"][1] + trunc / max(sc["sigma"][0], fl))
         bb = bad_blocks(errs)
         t, q, s = gparts(name, X.tensor().double().tolist())
         item = {"theta_log": n2(aparts(name, xi)[1]), "tnorm": n2(t) if t is not None else 0.0}
@@ -845,7 +876,7 @@ def run_jinvp_oracle(ctx: Ctx, n_cases: int):
     ctx.sample({"stream": "jinvp", "example": case}, cap=14)
 
 
-def jr_oracle_case(ctx: Ctx, case) -> bool:
+def jr_oracle_case(ctx: Ctx, case, got=None) -> bool:
     P = U.pp()
     mp = mp_mod()
     dtype = case["dtype"]
@@ -855,7 +886,7 @@ def jr_oracle_case(ctx: Ctx, case) -> bool:
     th = n2(xv)
     n0 = len(ctx.failures)
     try:
-        J = x.Jr()
+        J = x.Jr() if got is None else torch.tensor(got, dtype=D).reshape(3, 3)
         got = J.double().reshape(-1).tolist()
         K = mp_hat(mp, [mp.mpf(v) for v in xv])
         ref = mp_Jl(mp, -K)
@@ -906,27 +937,49 @@ def run_jr_oracle(ctx: Ctx, n_cases: int):
 
 def run(ctx: Ctx):
     torch.set_num_threads(2)
-    run_ops(ctx, ctx.pick(420, 7000))
-    run_laws(ctx, ctx.pick(260, 5000))
-    run_jinvp_oracle(ctx, ctx.pick(110, 2500))
-    run_jr_oracle(ctx, ctx.pick(90, 2000))
+    run_ops(ctx, ctx.pick(700, 7000))
+    run_laws(ctx, ctx.pick(400, 5000))
+    run_jinvp_oracle(ctx, ctx.pick(160, 2500))
+    run_jr_oracle(ctx, ctx.pick(120, 2000))
 
 
 def search(ctx: Ctx):
     """hunt for a concrete failing input on the real code after a proof / correspondence break"""
-    run_laws(ctx, 1500)
+    # disagreeing ops cases re-evaluated through the oracles where one applies
+    if not ctx.failures:
+        for d in list(ctx.disagreements)[:200]:
+            c = d["case"]
+            it = c.get("item") or {}
+            if c.get("op") in ("Adj", "AdjT", "Retr", "add") and "X" in c and "a" in c:
+                A_ = U.ADIM[c["type"]]
+                law_case(ctx, {"stream": "laws", "type": c["type"], "dtype": c["dtype"], "shape_X": c["shape_X"],
+                               "shape_a": c["shape_a"], "X": c["X"], "a": [r[:A_] for r in c["a"]]})
+            if c.get("op") == "Jinvp" and "X" in it:
+                try:   # the item's value as produced by the batched call
+                    T = tensors_of(c)
+                    Z = T["X"].Jinvp(T["a"]).tensor().double().reshape(-1, U.ADIM[c["type"]])
+                    got = Z[it["index"]].tolist()
+                except Exception:
+                    got = None
+                jinvp_oracle_case(ctx, {"stream": "jinvp", "type": c["type"], "dtype": c["dtype"], "X": it["X"], "p": it["p"],
+                                        "fd": got is None, "batched_from": {k2: c[k2] for k2 in ("shape_X", "shape_a", "X", "a")}}, got=got)
+            if c.get("op") == "Jr" and c.get("api") != "SO3.Jr" and "x" in c:
+                try:
+                    T = tensors_of(c)
+                    J = (T["x"].Jr()).double().reshape(-1, 9)
+                    i = it.get("index", 0)
+                    jr_oracle_case(ctx, {"stream": "jr", "type": "SO3", "dtype": c["dtype"], "x": T["x64"].reshape(-1, 3)[i].tolist(),
+                                         "d": [1.0, 0.0, 0.0], "batched_from": {k2: c[k2] for k2 in ("shape_X", "x")}}, got=J[i].tolist())
+                except Exception:
+                    pass
+            if ctx.failures:
+                break
+    if not ctx.failures:
+        run_laws(ctx, 1500)
     if not ctx.failures:
         run_jinvp_oracle(ctx, 500)
     if not ctx.failures:
         run_jr_oracle(ctx, 500)
-    if not ctx.failures:   # disagreeing ops items re-evaluated through the oracles where one applies
-        for d in list(ctx.disagreements)[:200]:
-            c = d["case"]
-            it = c.get("item") or {}
-            if c.get("op") == "Jinvp" and "X" in it:
-                jinvp_oracle_case(ctx, {"stream": "jinvp", "type": c["type"], "dtype": c["dtype"], "X": it["X"], "p": it["p"], "fd": True})
-            if ctx.failures:
-                break
 
 
 def replay(ctx: Ctx, case) -> bool:
